@@ -83,6 +83,7 @@ class VFS:
         self.log = []             # (owner, label, path)
         self.compiles = 0
         self.dlopens = []         # (owner, path, ok, detail)
+        self.listed = False       # the code under test enumerated a volatile directory
 
     # -- classification / hook ------------------------------------------------
     def kind(self, path):
@@ -130,6 +131,18 @@ class VFS:
     def listdir(self, path):
         path = norm(path)
         return sorted(p for p in self.files if _os.path.dirname(p) == path)
+
+    def listing(self, path):
+        """Directory enumeration by the code under test (os.listdir, glob): a
+        yield point on the directory; enumerating a volatile directory makes
+        every name in it known to the caller, so 'random temporary names are
+        private to their creator' no longer holds (callers re-run with every
+        name shared when ``listed`` is set)."""
+        path = norm(path)
+        if self._is_volatile(path):
+            self.listed = True
+        self._pt("listdir", path, "shared" if self._is_volatile(path) else None)
+        return self.listdir(path)
 
     # -- queries --------------------------------------------------------------
     def exists(self, path):
@@ -549,7 +562,7 @@ class OsShim:
             _os.O_RDONLY, _os.O_WRONLY, _os.O_CREAT, _os.O_EXCL)
 
     def listdir(self, path):
-        return [_os.path.basename(p) for p in self._vfs.listdir(path)]
+        return [_os.path.basename(p) for p in self._vfs.listing(path)]
 
     def chmod(self, path, mode):
         self._vfs._pt("chmod", norm(path))
@@ -639,6 +652,50 @@ class SubprocessShim:
         raise VfsUnsupported("subprocess.%s is not modelled by vlib.vfs" % name)
 
 
+class GlobShim:
+    """``glob`` over the virtual filesystem (magic in the last component only)."""
+
+    def __init__(self, vfs):
+        import glob as _glob
+        self._vfs = vfs
+        self.escape = _glob.escape
+        self.has_magic = _glob.has_magic
+
+    def glob(self, pathname, **kw):
+        import fnmatch
+        import glob as _glob
+        pathname = _os.fspath(pathname)
+        d, base = _os.path.split(pathname)
+        if (kw.get("recursive") or kw.get("root_dir") is not None or not d
+                or _glob.has_magic(d.replace("[[]", "").replace("[?]", "").replace("[*]", ""))):
+            raise VfsUnsupported("glob pattern %r is not modelled by vlib.vfs" % (pathname,))
+        # undo glob.escape in the directory part
+        d = d.replace("[[]", "[").replace("[?]", "?").replace("[*]", "*")
+        if not _glob.has_magic(base):
+            return [pathname] if self._vfs.exists(pathname) else []
+        names = [_os.path.basename(p) for p in self._vfs.listing(d)]
+        return [_os.path.join(d, n) for n in names
+                if fnmatch.fnmatchcase(n, base) and (base.startswith(".") or not n.startswith("."))]
+
+    def iglob(self, pathname, **kw):
+        return iter(self.glob(pathname, **kw))
+
+    def __getattr__(self, name):
+        raise VfsUnsupported("glob.%s is not modelled by vlib.vfs" % name)
+
+
+class UnmodelledModule:
+    """A filesystem-capable module the code under test has started to use and
+    vlib.vfs does not model: any use is 'no verdict', never a silent bypass of
+    the virtual filesystem."""
+
+    def __init__(self, name):
+        self.__dict__["_name"] = name
+
+    def __getattr__(self, attr):
+        raise VfsUnsupported("%s.%s is not modelled by vlib.vfs" % (self.__dict__["_name"], attr))
+
+
 class CtShim:
     """``ctypes`` with ``CDLL`` bound to the virtual filesystem."""
 
@@ -695,6 +752,16 @@ def attach_kerneldll(patch, vfs, kerneldll, pid=lambda: 4242):
               "vfs.SubprocessShim(scripted two-half compiler)")
     patch.set(kerneldll, "ct", CtShim(vfs), "vfs.CtShim(CDLL on complete virtual libraries only)")
     patch.set(kerneldll, "open", vfs.open, "vfs.open")
+    # modules the current kerneldll does not import but a change may: they must
+    # not reach the real filesystem behind the virtual one
+    import types as _types
+    for name, value in list(kerneldll.__dict__.items()):
+        if not isinstance(value, _types.ModuleType):
+            continue
+        if value.__name__ == "glob":
+            patch.set(kerneldll, name, GlobShim(vfs), "vfs.GlobShim")
+        elif value.__name__ in ("shutil", "pathlib", "io", "fnmatch_fs", "posix", "posixpath", "genericpath"):
+            patch.set(kerneldll, name, UnmodelledModule(value.__name__), "vfs.UnmodelledModule")
 
 
 def attach_generate(patch, vfs, generate):
@@ -704,6 +771,10 @@ def attach_generate(patch, vfs, generate):
     patch.set(generate, "getmtime", vfs.getmtime, "vfs.getmtime (symbolic mtimes)")
     patch.set(generate, "exists", vfs.exists, "vfs.exists")
     patch.set(generate, "open", vfs.open, "vfs.open")
+    # os.path functions a change may newly import into generate
+    for name, fn in (("getsize", vfs.getsize), ("isfile", vfs.isfile), ("isdir", vfs.isdir)):
+        if name in generate.__dict__:
+            patch.set(generate, name, fn, "vfs.%s" % name)
 
 
 def attach_custom(patch, vfs, custom):
